@@ -4,7 +4,13 @@
 // frames with socketcan.Receiver.  Checks printed as
 //
 //	WN scen=<s> check=<c> ok=<0|1> info=<text>
-//	RUN scen=<s> cause=<none|rxhook|txhook|other> text=<hex of the hook error text> msg=<hex message name> got=<nil|hex of Run's error text>
+//	RUN scen=<s> cause=<none|rxhook|txhook|connect|other> text=<hex of the hook error text> msg=<hex message name> got=<nil|hex of Run's error text>
+//	RN scen=<s> n=<worker goroutines> <CA|CC|CR.ok|CL|RT.ok> ...
+//
+// RN = what canrunner.Run was seen doing at the Node / net.Conn interfaces, in order: CA the
+// scenario cancels the context, CC / CR.ok Connect called / returned, CL Close() called on the
+// connection Connect returned, RT.ok Run returned (1 = nil).  The model driver checks the sequence
+// against the LTS of Run (Runner/RunLts.v qstep), inserting only its hidden Spawn / WorkerRet events.
 //
 // Timing: ticks are real (MotorCommand's cycle time is set to 1 ms); all waits are generous and a
 // timeout only becomes ok=0 where the model says the awaited event must happen under fairness.
@@ -18,6 +24,7 @@ import (
 	"net"
 	"os"
 	"path/filepath"
+	"strings"
 	"sync"
 	"sync/atomic"
 	"time"
@@ -31,12 +38,71 @@ import (
 
 const longWait = 15 * time.Second
 
-type pipeNode struct {
-	canrunner.Node
-	c net.Conn
+// Waits for something the unchanged code does promptly are generous (longWait).  Once checks have
+// failed (only a changed implementation, or a machine that is far too slow, gets there) the waits
+// are shortened and, after more failures, the remaining scenarios are skipped: the reported
+// failures already show it.
+var wnFailed int32
+
+func lw() time.Duration {
+	if atomic.LoadInt32(&wnFailed) >= 2 {
+		return 1500 * time.Millisecond
+	}
+	return longWait
 }
 
-func (p pipeNode) Connect() (net.Conn, error) { return p.c, nil }
+func wnGiveUp() bool { return atomic.LoadInt32(&wnFailed) >= 8 }
+
+// hookNode: the generated node with Connect replaced (everything else is the generated code).
+type hookNode struct {
+	canrunner.Node
+	connect func() (net.Conn, error)
+}
+
+func (h hookNode) Connect() (net.Conn, error) { return h.connect() }
+
+// runLog: the Run-level events of one scenario in the order they were observed.  Every token is
+// appended inside the real-time interval of the action it stands for, and an action that causes
+// another one is logged before it starts, so the log is a linearisation.
+type runLog struct {
+	mu   sync.Mutex
+	toks []string
+}
+
+func (l *runLog) add(tok string) {
+	l.mu.Lock()
+	l.toks = append(l.toks, tok)
+	l.mu.Unlock()
+}
+
+func (l *runLog) String() string {
+	l.mu.Lock()
+	defer l.mu.Unlock()
+	return strings.Join(l.toks, " ")
+}
+
+// recConn records Close() calls on the connection Connect handed to Run.
+type recConn struct {
+	net.Conn
+	rl     *runLog
+	closes int32
+}
+
+func (c *recConn) Close() error {
+	atomic.AddInt32(&c.closes, 1)
+	c.rl.add("CL")
+	return c.Conn.Close()
+}
+
+// nodeOpt: when the cancellation comes relative to Run / Connect, and how Connect behaves.
+type nodeOpt struct {
+	precancel  bool     // the context is already cancelled when Run is called
+	gate       bool     // Connect blocks until the scenario has cancelled the context, then returns the connection
+	connectErr error    // Connect fails
+	ownRun     bool     // unix only: the generated node's own Run(ctx) and Connect (Close is then seen by the peer only)
+	again      *nodeRun // run the SAME node value as this finished run once more (same address)
+	keep       bool     // another run of the same node follows: keep the socket directory
+}
 
 type peer struct {
 	abort  chan struct{} // closed when Run has returned: nothing more will arrive
@@ -63,7 +129,7 @@ func (p *peer) start() {
 }
 
 func (p *peer) send(f can.Frame) error {
-	ctx, cancel := context.WithTimeout(context.Background(), longWait)
+	ctx, cancel := context.WithTimeout(context.Background(), lw())
 	defer cancel()
 	return p.tx.TransmitFrame(ctx, f)
 }
@@ -146,51 +212,129 @@ type nodeRun struct {
 	dir    string
 	leak   goleak.Option
 	emit   func(string)
+	opt    nodeOpt
+	rl     *runLog
+	rec    *recConn // the connection Connect returned (written before Run can return)
+	inConn chan struct{}
+	gateCh chan struct{}
 }
 
 func startNode(scen, mode string, emit func(string)) (*nodeRun, error) {
-	r := &nodeRun{scen: scen + "-" + mode, mode: mode, emit: emit, result: make(chan error, 1), runEnd: make(chan struct{})}
+	return startNodeOpt(scen, mode, emit, nodeOpt{ownRun: mode == "unix"})
+}
+
+// connectVia wraps a way of obtaining the connection into the Connect the runner calls.
+func (r *nodeRun) connectVia(inner func() (net.Conn, error)) func() (net.Conn, error) {
+	return func() (net.Conn, error) {
+		r.rl.add("CC")
+		if r.opt.gate {
+			close(r.inConn)
+			<-r.gateCh
+		}
+		if r.opt.connectErr != nil {
+			r.rl.add("CR.0")
+			return nil, r.opt.connectErr
+		}
+		c, err := inner()
+		if err != nil {
+			r.rl.add("CR.0")
+			return nil, err
+		}
+		r.rec = &recConn{Conn: c, rl: r.rl}
+		r.rl.add("CR.1")
+		return r.rec, nil
+	}
+}
+
+// cancelDuringConnect: Run is inside Connect; cancel, then let Connect return.
+func (r *nodeRun) cancelDuringConnect() error {
+	if !r.opt.gate {
+		return nil
+	}
+	select {
+	case <-r.inConn:
+	case <-time.After(lw()):
+		close(r.gateCh)
+		return errors.New("Run did not call Connect")
+	}
+	r.stop()
+	close(r.gateCh)
+	return nil
+}
+
+func startNodeOpt(scen, mode string, emit func(string), opt nodeOpt) (*nodeRun, error) {
+	r := &nodeRun{scen: scen + "-" + mode, mode: mode, emit: emit, result: make(chan error, 1), runEnd: make(chan struct{}),
+		opt: opt, rl: &runLog{}, inConn: make(chan struct{}), gateCh: make(chan struct{})}
 	r.leak = goleak.IgnoreCurrent()
 	ctx, cancel := context.WithCancel(context.Background())
 	r.cancel = cancel
+	if opt.precancel {
+		r.stop()
+	}
+	runIt := func(n canrunner.Node) {
+		err := canrunner.Run(ctx, n)
+		r.rl.add("RT." + b01(err == nil))
+		r.res = err
+		close(r.runEnd)
+	}
 	switch mode {
 	case "unix":
-		dir, err := os.MkdirTemp("", "verif-runner-")
-		if err != nil {
-			return nil, err
+		if opt.again != nil {
+			r.dir, r.node = opt.again.dir, opt.again.node
+		} else {
+			dir, err := os.MkdirTemp("", "verif-runner-")
+			if err != nil {
+				return nil, err
+			}
+			r.dir = dir
 		}
-		r.dir = dir
-		path := filepath.Join(dir, "s")
+		path := filepath.Join(r.dir, "s")
 		ln, err := net.Listen("unix", path)
 		if err != nil {
 			return nil, err
 		}
 		r.ln = ln
-		r.node = examplecan.NewDRIVER("unix", path)
+		if opt.again == nil {
+			r.node = examplecan.NewDRIVER("unix", path)
+		}
 		r.prepare()
-		go func() { r.res = r.node.Run(ctx); close(r.runEnd) }()
+		if opt.ownRun {
+			go func() { r.res = r.node.Run(ctx); close(r.runEnd) }()
+		} else {
+			inner := r.node.(canrunner.Node)
+			go runIt(hookNode{Node: inner, connect: r.connectVia(inner.Connect)})
+		}
 		type acc struct {
 			c   net.Conn
 			err error
 		}
 		ch := make(chan acc, 1)
 		go func() { c, err := ln.Accept(); ch <- acc{c, err} }()
+		if err := r.cancelDuringConnect(); err != nil {
+			return nil, err
+		}
 		select {
 		case a := <-ch:
 			if a.err != nil {
 				return nil, a.err
 			}
 			r.peer = &peer{conn: a.c, abort: r.runEnd}
-		case <-time.After(longWait):
+		case <-time.After(lw()):
 			return nil, errors.New("node did not connect")
 		}
 	default:
 		c1, c2 := net.Pipe()
-		r.node = examplecan.NewDRIVER("none", "none")
+		if opt.again != nil {
+			r.node = opt.again.node
+		} else {
+			r.node = examplecan.NewDRIVER("none", "none")
+		}
 		r.prepare()
-		pn := pipeNode{Node: r.node.(canrunner.Node), c: c1}
-		go func() { r.res = canrunner.Run(ctx, pn); close(r.runEnd) }()
+		go runIt(hookNode{Node: r.node.(canrunner.Node), connect: r.connectVia(func() (net.Conn, error) { return c1, nil })})
 		r.peer = &peer{conn: c2, abort: r.runEnd}
+		if err := r.cancelDuringConnect(); err != nil {
+			return nil, err
+		}
 	}
 	r.peer.start()
 	return r, nil
@@ -214,7 +358,9 @@ func (r *nodeRun) stop() {
 	if r.ended() && atomic.LoadInt32(&r.asked) == 0 {
 		r.early = true
 	}
-	atomic.StoreInt32(&r.asked, 1)
+	if atomic.SwapInt32(&r.asked, 1) == 0 {
+		r.rl.add("CA")
+	}
 	r.cancel()
 }
 
@@ -226,6 +372,12 @@ func (r *nodeRun) check(name string, ok bool, info string) {
 		r.emit(fmt.Sprintf("WN scen=%s check=inconclusive ok=1 info=%s", r.scen, hexs(name+": Run had already returned")))
 		return
 	}
+	r.emit(fmt.Sprintf("WN scen=%s check=%s ok=%s info=%s", r.scen, name, b01(ok), hexs(info)))
+}
+
+// hard: a check whose failure stays a failure even if Run has already returned by itself (what is
+// checked does not depend on Run still running).
+func (r *nodeRun) hard(name string, ok bool, info string) {
 	r.emit(fmt.Sprintf("WN scen=%s check=%s ok=%s info=%s", r.scen, name, b01(ok), hexs(info)))
 }
 
@@ -246,7 +398,7 @@ func (r *nodeRun) finish(cause, hookText, msgName string) {
 	select {
 	case <-r.runEnd:
 		res = r.res
-	case <-time.After(longWait):
+	case <-time.After(lw()):
 		returned = false
 	}
 	r.check("run-returns", returned, "")
@@ -259,14 +411,38 @@ func (r *nodeRun) finish(cause, hookText, msgName string) {
 	}
 	if returned {
 		r.emit(fmt.Sprintf("RUN scen=%s cause=%s text=%s msg=%s got=%s", r.scen, cause, hexs(hookText), hexs(msgName), got))
-		// the connection is closed by Run before it returns: the peer sees the end of the stream
-		closed := false
-		select {
-		case <-r.peer.closed:
-			closed = true
-		case <-time.After(longWait):
+		switch {
+		case r.opt.connectErr != nil:
+			// Connect failed: there is no connection to close
+		case !r.opt.ownRun:
+			// Close() has been called on the connection Connect returned by the time Run returns,
+			// and the peer sees the end of the stream
+			n := int32(0)
+			if r.rec != nil {
+				n = atomic.LoadInt32(&r.rec.closes)
+			}
+			closed := n >= 1
+			if closed {
+				select {
+				case <-r.peer.closed:
+				case <-time.After(lw()):
+					closed = false
+				}
+			}
+			r.hard("conn-closed", closed, fmt.Sprintf("Close() calls on the connection returned by Connect when Run returned: %d", n))
+		default:
+			// the connection is closed by Run before it returns: the peer sees the end of the stream
+			closed := false
+			select {
+			case <-r.peer.closed:
+				closed = true
+			case <-time.After(lw()):
+			}
+			r.hard("conn-closed", closed, "")
 		}
-		r.check("conn-closed", closed, "")
+	}
+	if !r.opt.ownRun {
+		r.emit(fmt.Sprintf("RN scen=%s n=%x %s", r.scen, 1+len(r.node.(canrunner.Node).TransmittedMessages()), r.rl.String()))
 	}
 	r.cancel()
 	_ = r.peer.conn.Close()
@@ -275,9 +451,9 @@ func (r *nodeRun) finish(cause, hookText, msgName string) {
 	}
 	select {
 	case <-r.peer.closed:
-	case <-time.After(longWait):
+	case <-time.After(lw()):
 	}
-	if r.dir != "" {
+	if r.dir != "" && !r.opt.keep {
 		_ = os.RemoveAll(r.dir)
 	}
 	if returned {
@@ -289,7 +465,12 @@ func (r *nodeRun) finish(cause, hookText, msgName string) {
 				info = info[:300]
 			}
 		}
-		r.check("no-goroutine-leak", err == nil, info)
+		if r.early {
+			// Run stopped by itself in the middle of the scenario: goroutines of the scenario may still wait for it
+			r.check("no-goroutine-leak", err == nil, info)
+		} else {
+			r.hard("no-goroutine-leak", err == nil, info)
+		}
 	}
 }
 
@@ -328,7 +509,7 @@ func wnEventExactlyOnce(mode string, emit func(string)) {
 			defer wg.Done()
 			for i := 0; i < 20; i++ {
 				locked(r.node, func() { hb.SetCommand(examplecan.DriverHeartbeat_Command(i % 3)) })
-				ctx, cancel := context.WithTimeout(context.Background(), longWait)
+				ctx, cancel := context.WithTimeout(context.Background(), lw())
 				if hb.Transmit(ctx) == nil {
 					atomic.AddInt32(&okN, 1)
 				}
@@ -337,10 +518,10 @@ func wnEventExactlyOnce(mode string, emit func(string)) {
 		}(g)
 	}
 	counts := map[uint32]int{}
-	returned := callWithin(2*longWait, wg.Wait)
+	returned := callWithin(2*lw(), wg.Wait)
 	r.check("transmit-calls-return", returned, "")
 	want := int(atomic.LoadInt32(&okN))
-	all := r.peer.collect(counts, longWait, func() bool { return counts[100] >= want })
+	all := r.peer.collect(counts, lw(), func() bool { return counts[100] >= want })
 	r.check("accepted-request-transmitted", all, fmt.Sprintf("accepted=%d frames=%d", want, counts[100]))
 	r.peer.collect(counts, 40*time.Millisecond, nil)
 	r.check("one-frame-per-request", counts[100] == want, fmt.Sprintf("accepted=%d frames=%d", want, counts[100]))
@@ -369,11 +550,11 @@ func wnToggles(mode string, emit func(string)) {
 		})
 	})
 	set := func(b bool) bool {
-		return callWithin(longWait, func() { locked(r.node, func() { mc.SetCyclicTransmissionEnabled(b) }) })
+		return callWithin(lw(), func() { locked(r.node, func() { mc.SetCyclicTransmissionEnabled(b) }) })
 	}
 	waitFrames := func(n int) (int, bool) {
 		counts := map[uint32]int{}
-		ok := r.peer.collect(counts, longWait, func() bool { return counts[101] >= n })
+		ok := r.peer.collect(counts, lw(), func() bool { return counts[101] >= n })
 		return counts[101], ok
 	}
 	// nothing before the first enable
@@ -383,10 +564,10 @@ func wnToggles(mode string, emit func(string)) {
 	// enable while parked
 	r.check("toggle-call-returns", set(true), "enable")
 	n, ok := waitFrames(5)
-	r.check("enable-takes-effect", ok, fmt.Sprintf("frames=%d within %s after enable", n, longWait))
+	r.check("enable-takes-effect", ok, fmt.Sprintf("frames=%d within %s after enable", n, lw()))
 	// disable while parked / busy at random
 	r.check("toggle-call-returns", set(false), "disable")
-	n, ok = r.peer.quiet(101, 250*time.Millisecond, longWait)
+	n, ok = r.peer.quiet(101, 250*time.Millisecond, lw())
 	r.check("disable-takes-effect", ok && n <= 64, fmt.Sprintf("frames=%d after disable quiet=%v", n, ok))
 	// enable again, then disable while the loop is inside the hook; several toggles while busy
 	r.check("toggle-call-returns", set(true), "enable")
@@ -400,18 +581,18 @@ func wnToggles(mode string, emit func(string)) {
 		ok3 := set(false)
 		r.check("toggle-call-returns", ok1 && ok2 && ok3, "three toggles while the loop is inside the hook")
 		release <- struct{}{}
-		n, ok = r.peer.quiet(101, 250*time.Millisecond, longWait)
+		n, ok = r.peer.quiet(101, 250*time.Millisecond, lw())
 		r.check("disable-takes-effect", ok && n <= 64, fmt.Sprintf("frames=%d after busy disable quiet=%v", n, ok))
 	case <-r.runEnd:
 		r.check("enable-takes-effect", false, "Run returned")
-	case <-time.After(longWait):
+	case <-time.After(lw()):
 		r.check("enable-takes-effect", false, "hook never entered while cyclic transmission enabled")
 	}
 	// enable while the loop is busy with an event transmit
 	atomic.StoreInt32(&gate, 1)
 	evDone := make(chan error, 1)
 	go func() {
-		ctx, cancel := context.WithTimeout(context.Background(), longWait)
+		ctx, cancel := context.WithTimeout(context.Background(), lw())
 		defer cancel()
 		evDone <- mc.Transmit(ctx)
 	}()
@@ -426,13 +607,13 @@ func wnToggles(mode string, emit func(string)) {
 		r.check("enable-takes-effect", ok, fmt.Sprintf("frames=%d after busy enable", n))
 	case <-r.runEnd:
 		r.check("accepted-request-transmitted", false, "Run returned")
-	case <-time.After(longWait):
+	case <-time.After(lw()):
 		r.check("accepted-request-transmitted", false, "event request never reached the hook")
 	}
 	select {
 	case <-evDone:
 	case <-r.runEnd:
-	case <-time.After(longWait):
+	case <-time.After(lw()):
 	}
 	close(release) // never block the hook again
 	r.stop()
@@ -478,7 +659,7 @@ func wnReceive(mode string, emit func(string)) {
 		}
 	}
 	r.check("setup-frames-sent", sent, "")
-	deadline := time.Now().Add(longWait)
+	deadline := time.Now().Add(lw())
 	for time.Now().Before(deadline) {
 		mu.Lock()
 		n := len(order)
@@ -529,7 +710,7 @@ func wnTxHookError(mode string, emit func(string)) {
 	hookErr := errors.New("before-transmit hook failed")
 	hb := r.node.Tx().DriverHeartbeat()
 	locked(r.node, func() { hb.SetBeforeTransmitHook(func(context.Context) error { return hookErr }) })
-	ctx, cancel := context.WithTimeout(context.Background(), longWait)
+	ctx, cancel := context.WithTimeout(context.Background(), lw())
 	errT := hb.Transmit(ctx)
 	cancel()
 	r.check("transmit-calls-return", errT == nil, "the request is accepted before the hook runs")
@@ -581,14 +762,282 @@ func wnCancel(mode string, emit func(string)) {
 	}
 	locked(r.node, func() { r.node.Tx().MotorCommand().SetCyclicTransmissionEnabled(true) })
 	counts := map[uint32]int{}
-	r.peer.collect(counts, longWait, func() bool { return counts[101] >= 2 })
+	r.peer.collect(counts, lw(), func() bool { return counts[101] >= 2 })
 	r.stop()
 	r.finish("none", "", "")
 }
 
-func wholeNode(rounds int, emit func(string)) {
+// wnCancelEarly: the cancellation comes before Run has started anything - before Run is called
+// ("precancel") or while Run is inside Connect ("connectcancel": Connect blocks until the scenario
+// has cancelled, then returns the connection).  Run must return nil, the connection Connect
+// returned must have been closed, no goroutine may be left, nothing is transmitted.
+func wnCancelEarly(kind, mode string, own bool, emit func(string)) {
+	name := kind
+	if own {
+		name += "own"
+	}
+	r, err := startNodeOpt(name, mode, emit, nodeOpt{precancel: kind == "precancel", gate: kind == "connectcancel", ownRun: own})
+	if err != nil {
+		emit("WN scen=" + name + "-" + mode + " check=setup ok=0 info=" + hexs(err.Error()))
+		return
+	}
+	r.finish("none", "", "")
+	counts := map[uint32]int{}
+	r.peer.collect(counts, 10*time.Millisecond, nil)
+	r.hard("no-frame-without-trigger", counts[100]+counts[101] == 0, fmt.Sprintf("frames=%d from a node cancelled before it started", counts[100]+counts[101]))
+}
+
+// wnConnectError: Connect fails; Run returns that error, there is nothing to close.
+func wnConnectError(mode string, emit func(string)) {
+	connErr := errors.New("no such bus")
+	r, err := startNodeOpt("connecterr", mode, emit, nodeOpt{connectErr: connErr})
+	if err != nil {
+		emit("WN scen=connecterr-" + mode + " check=setup ok=0 info=" + hexs(err.Error()))
+		return
+	}
+	r.finish("connect", connErr.Error(), "")
+}
+
+// wnSlowHook: a before-transmit hook that takes LONGER than the message's send timeout (= its
+// cycle time), for an event request and for cyclic ticks.  The send timeout bounds the write, not
+// the hook: every accepted request / taken tick whose hook returned nil still yields exactly one
+// frame and Run keeps running.  Real time: the write itself must finish within one cycle time, so
+// the scenario is tried with a short cycle time first and repeated with longer ones only if it
+// did not succeed (a write delayed by the machine, or a changed implementation - the latter fails
+// with every cycle time); the checks of the last attempt are the ones reported.
+func wnSlowHook(mode string, emit func(string)) {
+	cycles := []time.Duration{60 * time.Millisecond, 500 * time.Millisecond, 2500 * time.Millisecond}
+	for k, c := range cycles {
+		var lines []string
+		ok := slowHookAttempt(mode, c, func(s string) { lines = append(lines, s) })
+		if ok || k == len(cycles)-1 {
+			for _, l := range lines {
+				emit(l)
+			}
+			return
+		}
+	}
+}
+
+func slowHookAttempt(mode string, cycle time.Duration, emit func(string)) bool {
+	good := true
+	emit2 := func(s string) {
+		if strings.Contains(s, " ok=0 ") || strings.Contains(s, "check=inconclusive") || strings.Contains(s, "cause=other") {
+			good = false
+		}
+		emit(s)
+	}
+	hbD, mcD := examplecan.Messages().DriverHeartbeat, examplecan.Messages().MotorCommand
+	hbOld, mcOld := hbD.CycleTime, mcD.CycleTime
+	hbD.CycleTime, mcD.CycleTime = cycle, cycle
+	defer func() { hbD.CycleTime, mcD.CycleTime = hbOld, mcOld }()
+	r, err := startNode("slowhook", mode, emit2)
+	if err != nil {
+		emit("WN scen=slowhook-" + mode + " check=setup ok=0 info=" + hexs(err.Error()))
+		return false
+	}
+	hookTime := 2*cycle + 10*time.Millisecond
+	what := fmt.Sprintf("cycle time = send timeout %s, hook %s", cycle, hookTime)
+	hb, mc := r.node.Tx().DriverHeartbeat(), r.node.Tx().MotorCommand()
+	var mcHooks, mcSlow int32
+	locked(r.node, func() {
+		hb.SetBeforeTransmitHook(func(context.Context) error { time.Sleep(hookTime); return nil })
+		mc.SetBeforeTransmitHook(func(context.Context) error {
+			if atomic.AddInt32(&mcSlow, 1) <= 2 {
+				time.Sleep(hookTime)
+			}
+			atomic.AddInt32(&mcHooks, 1)
+			return nil
+		})
+	})
+	// event request
+	ctx, cancel := context.WithTimeout(context.Background(), lw())
+	errT := hb.Transmit(ctx)
+	cancel()
+	r.hard("transmit-calls-return", errT == nil, "event request with a slow hook")
+	counts := map[uint32]int{}
+	if errT == nil {
+		got := r.peer.collect(counts, hookTime+lw(), func() bool { return counts[100] >= 1 })
+		r.hard("accepted-request-transmitted", got && !r.ended(), fmt.Sprintf("frames=%d, Run returned=%v; %s", counts[100], r.ended(), what))
+	}
+	// cyclic ticks: the first two hook invocations are slow
+	if !r.ended() {
+		locked(r.node, func() { mc.SetCyclicTransmissionEnabled(true) })
+		got := r.peer.collect(counts, 2*hookTime+4*cycle+lw(), func() bool { return counts[101] >= 3 })
+		r.hard("due-tick-transmitted", got && !r.ended(), fmt.Sprintf("frames=%d hooks=%d, Run returned=%v; %s", counts[101], atomic.LoadInt32(&mcHooks), r.ended(), what))
+		locked(r.node, func() { mc.SetCyclicTransmissionEnabled(false) })
+		n, _ := r.peer.quiet(101, cycle+250*time.Millisecond, lw())
+		counts[101] += n
+		for i := 0; i < 100 && int(atomic.LoadInt32(&mcHooks)) != counts[101] && !r.ended(); i++ {
+			r.peer.collect(counts, 10*time.Millisecond, nil)
+		}
+		r.hard("one-frame-per-request", int(atomic.LoadInt32(&mcHooks)) == counts[101] && counts[100] == 1,
+			fmt.Sprintf("MotorCommand: hooks returned nil=%d frames=%d; DriverHeartbeat: accepted=1 frames=%d; %s", atomic.LoadInt32(&mcHooks), counts[101], counts[100], what))
+	}
+	r.hard("run-keeps-running", !r.ended(), "Run returned by itself although nothing failed; "+what)
+	r.stop()
+	r.finish("none", "", "")
+	return good
+}
+
+// wnRerun: run / cancel / run again on the SAME node value.  What the application set while a
+// run was in progress or while no runner was running is in force in the next run without a new
+// toggle: enabled in run 1 -> run 2 transmits cyclically from the start (the wake-up token of the
+// toggle was consumed by run 1); disabled in run 2 -> run 3 is silent; enabled while nothing runs
+// -> run 4 transmits.
+func wnRerun(mode string, emit func(string)) {
+	mcD := examplecan.Messages().MotorCommand
+	old := mcD.CycleTime
+	mcD.CycleTime = 10 * time.Millisecond
+	defer func() { mcD.CycleTime = old }()
+	var prev *nodeRun
+	for run := 1; run <= 4; run++ {
+		r, err := startNodeOpt(fmt.Sprintf("rerun%d", run), mode, emit, nodeOpt{ownRun: mode == "unix", again: prev, keep: run < 4})
+		if err != nil {
+			emit(fmt.Sprintf("WN scen=rerun%d-%s check=setup ok=0 info=%s", run, mode, hexs(err.Error())))
+			if prev != nil && prev.dir != "" {
+				_ = os.RemoveAll(prev.dir)
+			}
+			return
+		}
+		prev = r
+		mc := r.node.Tx().MotorCommand()
+		counts := map[uint32]int{}
+		switch run {
+		case 1:
+			locked(r.node, func() { mc.SetCyclicTransmissionEnabled(true) })
+			got := r.peer.collect(counts, lw(), func() bool { return counts[101] >= 3 })
+			r.check("enable-takes-effect", got, fmt.Sprintf("enabled during run 1: frames=%d", counts[101]))
+		case 2:
+			got := r.peer.collect(counts, lw(), func() bool { return counts[101] >= 3 })
+			r.check("enable-takes-effect", got, fmt.Sprintf("run 2 of the same node, enabled since run 1, no new toggle: frames=%d", counts[101]))
+			locked(r.node, func() { mc.SetCyclicTransmissionEnabled(false) })
+			n, ok := r.peer.quiet(101, 250*time.Millisecond, lw())
+			r.check("disable-takes-effect", ok && n <= 64, fmt.Sprintf("frames=%d after disable quiet=%v", n, ok))
+		case 3:
+			r.peer.collect(counts, 60*time.Millisecond, nil)
+			r.check("no-frame-without-trigger", counts[101] == 0, fmt.Sprintf("run 3 of the same node, disabled since run 2: frames=%d", counts[101]))
+		case 4:
+			got := r.peer.collect(counts, lw(), func() bool { return counts[101] >= 3 })
+			r.check("enable-takes-effect", got, fmt.Sprintf("run 4 of the same node, enabled while no runner was running: frames=%d", counts[101]))
+		}
+		r.stop()
+		r.finish("none", "", "")
+		if run == 3 {
+			locked(r.node, func() { mc.SetCyclicTransmissionEnabled(true) })
+		}
+	}
+}
+
+// wnEachMessage: event requests to EACH transmitted message of the node in turn; the frames on
+// the wire are attributed per message ID: an accepted request for a message yields exactly one
+// frame of THAT message and none of another.
+func wnEachMessage(mode string, emit func(string)) {
+	r, err := startNode("eachmsg", mode, emit)
+	if err != nil {
+		emit("WN scen=eachmsg-" + mode + " check=setup ok=0 info=" + hexs(err.Error()))
+		return
+	}
+	type transmitter interface {
+		Transmit(context.Context) error
+	}
+	msgs := []struct {
+		id   uint32
+		name string
+		m    transmitter
+	}{{100, "DriverHeartbeat", r.node.Tx().DriverHeartbeat()}, {101, "MotorCommand", r.node.Tx().MotorCommand()}}
+	counts := map[uint32]int{}
+	want := map[uint32]int{}
+	for round := 0; round < 3 && !r.ended(); round++ {
+		for k := range msgs {
+			x := msgs[(k+round)%len(msgs)]
+			ctx, cancel := context.WithTimeout(context.Background(), lw()/3)
+			errT := x.m.Transmit(ctx)
+			cancel()
+			r.check("request-accepted", errT == nil, fmt.Sprintf("%s.Transmit while its transmitter is parked: %v", x.name, errT))
+			if errT != nil {
+				continue
+			}
+			want[x.id]++
+			got := r.peer.collect(counts, lw(), func() bool { return counts[x.id] >= want[x.id] })
+			r.check("accepted-request-transmitted", got, fmt.Sprintf("%s: accepted=%d frames=%d", x.name, want[x.id], counts[x.id]))
+			r.peer.collect(counts, 10*time.Millisecond, nil)
+			r.check("one-frame-per-request", counts[100] == want[100] && counts[101] == want[101],
+				fmt.Sprintf("after a request for %s: DriverHeartbeat accepted=%d frames=%d, MotorCommand accepted=%d frames=%d", x.name, want[100], counts[100], want[101], counts[101]))
+		}
+	}
+	r.stop()
+	r.finish("none", "", "")
+}
+
+// wnShapes: frames with the ID of a received message (SensorSonars: standard, 8 bytes) in every
+// shape - remote, extended, wrong length, well-formed.  Printed as
+//
+//	SH scen=<s> remote=<0|1> ext=<0|1> len=<n> msgext=0 msglen=8 stopped=<0|1> hooks=<n>
+//
+// the model (RunLts.shape_accepts + run_receiver) says whether the receiver stops there.
+func wnShapes(mode string, emit func(string)) {
+	shapes := []can.Frame{
+		{ID: 200, Length: 8, IsRemote: true},
+		{ID: 200, Length: 8, IsExtended: true},
+		{ID: 200, Length: 0, IsRemote: true},
+		{ID: 200, Length: 7},
+		examplecan.NewSensorSonars().Frame(),
+	}
+	for k, f := range shapes {
+		accepted := k == len(shapes)-1
+		name := fmt.Sprintf("shape%d", k)
+		r, err := startNode(name, mode, emit)
+		if err != nil {
+			emit("WN scen=" + name + "-" + mode + " check=setup ok=0 info=" + hexs(err.Error()))
+			continue
+		}
+		var hooks int32
+		locked(r.node, func() {
+			r.node.Rx().SensorSonars().SetAfterReceiveHook(func(context.Context) error { atomic.AddInt32(&hooks, 1); return nil })
+		})
+		_ = r.peer.send(f)
+		deadline := time.Now().Add(lw())
+		for time.Now().Before(deadline) && !r.ended() && atomic.LoadInt32(&hooks) == 0 {
+			time.Sleep(time.Millisecond)
+		}
+		if atomic.LoadInt32(&hooks) > 0 {
+			time.Sleep(5 * time.Millisecond) // a receiver that goes on after the hook has time to do so
+		}
+		emit(fmt.Sprintf("SH scen=%s remote=%s ext=%s len=%x msgext=0 msglen=8 stopped=%s hooks=%x",
+			r.scen, b01(f.IsRemote), b01(f.IsExtended), f.Length, b01(r.ended()), atomic.LoadInt32(&hooks)))
+		if accepted {
+			r.stop()
+			r.finish("none", "", "")
+		} else {
+			r.finish("other", "", "")
+		}
+	}
+}
+
+func wholeNode(rounds int, emit0 func(string)) {
+	emit := func(s string) {
+		if strings.HasPrefix(s, "WN ") && strings.Contains(s, " ok=0 ") {
+			atomic.AddInt32(&wnFailed, 1)
+		}
+		emit0(s)
+	}
+	for i := 0; i < rounds && !wnGiveUp(); i++ {
+		mode := []string{"unix", "pipe"}[i%2]
+		wnSlowHook(mode, emit)
+		wnEachMessage(mode, emit)
+		wnRerun(mode, emit)
+		wnShapes(mode, emit)
+		wnCancelEarly("precancel", mode, mode == "unix", emit)
+		wnCancelEarly("connectcancel", mode, false, emit)
+		if mode == "pipe" {
+			wnConnectError(mode, emit)
+		} else {
+			wnCancelEarly("precancel", mode, false, emit)
+		}
+	}
 	examplecan.Messages().MotorCommand.CycleTime = time.Millisecond
-	for i := 0; i < rounds; i++ {
+	for i := 0; i < rounds && !wnGiveUp(); i++ {
 		mode := []string{"unix", "pipe"}[i%2]
 		wnEventExactlyOnce(mode, emit)
 		wnToggles(mode, emit)
